@@ -131,6 +131,10 @@ type c26Stats struct {
 	misuse           int
 	ckpts            int
 	ckptNonEmpty     bool
+	// one process maps one frame at >= 2 virtual addresses:
+	rlSameProcAlias    int  // ... and ReverseLookup was asked for that frame
+	ckptAliasNonAsc    bool // ... inserted in non-ascending address order, at a checkpoint
+	rlAliasAfterNonAsc int  // ... ReverseLookup of such a frame on a table restored from that checkpoint
 }
 
 // c26Exec replays the history on two instances and the model.
@@ -144,6 +148,26 @@ func c26Exec(c c26Case, assertShared bool) (sig, msg string, st c26Stats) {
 		return psig, pmsg, st
 	}
 	m := c26Model{}
+	seq := map[c26Key]int{} // insertion order of the present keys (Update keeps the position)
+	nextSeq := 0
+	// aliases(paddr): does one process hold the frame at >= 2 addresses, and is their insertion order non-ascending?
+	aliases := func(paddr uint64) (same, nonAsc bool) {
+		last := map[vm.PID]c26Key{}
+		for _, k := range m.sortedKeys() { // ascending vaddr within a pid
+			if m[k].PAddr != paddr {
+				continue
+			}
+			if prev, ok := last[k.pid]; ok {
+				same = true
+				if seq[prev] > seq[k] {
+					nonAsc = true
+				}
+			}
+			last[k.pid] = k
+		}
+		return
+	}
+	restoredWithNonAsc := false
 	align := func(x uint64) uint64 { return (x >> c.Log2) << c.Log2 }
 	asked := map[uint64]bool{} // frames asked for so far (swept again after a checkpoint)
 
@@ -283,6 +307,8 @@ func c26Exec(c c26Case, assertShared bool) (sig, msg string, st c26Stats) {
 				switch op.Kind {
 				case "ins":
 					m[key] = op.page(c.Log2)
+					seq[key] = nextSeq
+					nextSeq++
 				case "upd":
 					m[key] = op.page(c.Log2)
 					st.updates++
@@ -322,6 +348,12 @@ func c26Exec(c c26Case, assertShared bool) (sig, msg string, st c26Stats) {
 				st.rlHits++
 			} else {
 				st.rlMisses++
+			}
+			if same, nonAsc := aliases(op.PAddr); same {
+				st.rlSameProcAlias++
+				if nonAsc && restoredWithNonAsc {
+					st.rlAliasAfterNonAsc++
+				}
 			}
 			if pids >= 2 {
 				st.rlCrossAsked++
@@ -375,6 +407,12 @@ func c26Exec(c c26Case, assertShared bool) (sig, msg string, st c26Stats) {
 						s1 = "checkpoint-" + s1
 					}
 					return s1, m1, st
+				}
+			}
+			for _, pa := range sorted {
+				if _, nonAsc := aliases(pa); nonAsc {
+					st.ckptAliasNonAsc = true
+					restoredWithNonAsc = true
 				}
 			}
 			a = fresh
@@ -523,7 +561,7 @@ func genC26(rt *rapid.T, s *kit.Session) c26Case {
 
 func TestC26PageTable(t *testing.T) {
 	s := kit.Begin(t, "C26", "pagetable",
-		"log2 page size from {12, {0,1,6,14,16,21,30}, 0..30}; 1..6 processes (PIDs incl. 0 and 2^32-1), 1..4 virtual pages (incl. the top page), 1..4 frames shared freely between processes (one unaligned); "+
+		"log2 page size from {12, {0,1,6,14,16,21,30}, 0..30}; 1..6 processes (PIDs incl. 0 and 2^32-1), 1..4 virtual pages (incl. the top page), 1..4 frames shared freely between processes and between the virtual pages of one process (same-process aliases, inserted in any address order; one frame unaligned); "+
 			"1..40 ops (rt.Repeat, average 16): insert of an absent key (update when present), remove/update of a present key, rare misuse (insert present / update, remove absent: documented panic asserted, state unchanged), "+
 			"Find at arbitrary unaligned addresses and unknown PIDs, ReverseLookup of pool frames and of absent addresses, checkpoint save -> load into a fresh table. "+
 			"Oracle: map model for Find/Insert/Update/Remove on two tables replaying the history; ReverseLookup found iff a model page has that PAddr and the returned page is one of them; "+
@@ -553,6 +591,9 @@ func TestC26PageTable(t *testing.T) {
 		add(st.findUnaligned > 0, "find-hit-unaligned")
 		add(st.misuse > 0, "misuse-panic-asserted")
 		add(st.ckptNonEmpty, "ckpt-non-empty")
+		add(st.rlSameProcAlias > 0, "reverselookup-of-same-process-alias")
+		add(st.ckptAliasNonAsc, "ckpt-with-same-process-alias-inserted-non-ascending")
+		add(st.rlAliasAfterNonAsc > 0, "reverselookup-of-non-ascending-alias-after-restore")
 		add(st.removes > 0, "remove")
 		add(st.updates > 0, "update")
 		add(st.maxProcs >= 3, "procs>=3")
